@@ -387,7 +387,7 @@ struct RegpHarness : Harness {
         Json as = Json::arr();
         as.push("reference codec written from doc/regp.txt: packed checksum words (existence follows the option bits), header CRC continues over the payload-CRC word (as in the unit tests' wire images), block size = payload size except for read requests");
         if (p == "C06") {
-            d["rule"] = "plans = {transport, memory word size, block size, driver kinds, session start sequence, ops: send request (via the real client emitter or the reference encoder) | send response/meta | serve}; the order of send/serve ops is the schedule (pipelining); every served frame is checked: exactly one backend call with the request's address/size/payload, exactly one reply equal octet-for-octet to the reference encoding of the prescribed response. Non-trivial = at least one frame served; distinct = distinct execution fingerprints";
+            d["rule"] = "plans = {transport, memory word size (or no memory attached), block size, driver kinds, session start sequence, optionally an earlier instance that received line noise and a second instance working inside a sink / source call, ops: send request (via the real client emitter or the reference encoder) | send response/meta | serve}; the order of send/serve ops is the schedule (pipelining); every served frame is checked: exactly one backend call with the request's address/size/payload, exactly one reply equal octet-for-octet to the reference encoding of the prescribed response. Non-trivial = at least one frame served; distinct = distinct execution fingerprints";
             as.push("reads stay within the transmit capacity here (the boundary region belongs to C09)");
         } else if (p == "C07") {
             d["rule"] = "per seeded serial frame (all types, both word sizes, payload 0..8 words) the corruption catalogue is enumerated on the frame octets before SLIP: every single-bit flip, every two-bit flip inside address/size/sequence/checksum/payload, bursts of length 2..16 at every bit offset of those fields (all-ones pattern and one seeded interior pattern each), every single-bit flip of the first header word, every truncation, extensions by 1..4 octets; plus a differential family of arbitrary / mutated / option-combination octet sequences on both transports. Each corrupted delivery is one library execution. Non-trivial = at least one corrupted frame delivered";
@@ -396,9 +396,9 @@ struct RegpHarness : Harness {
             as.push("the verdict of every delivered octet sequence must equal the reference classifier's; for catalogue corruptions the reference never says 'accept' (CRC-16/ARC detects them)");
             Json ex = Json::obj(); ex["fault_catalogue_enumerated_per_frame"] = true; d["extra"] = ex;
         } else if (p == "C08") {
-            d["rule"] = "plans = {transport, memory word size, session start sequence, emit calls: regp_req_read8/16, regp_req_write8/16, regp_resp_ack (with/without payload), each of the eleven regp_resp_e*, regp_resp_meta}; every frame put on the wire is compared octet for octet with the reference encoder and then received by a peer's regp_recv, whose reported fields must equal the intended ones. Non-trivial = at least one frame emitted";
+            d["rule"] = "plans = {transport, memory word size (or no memory attached), session start sequence, optionally an earlier instance that received line noise and a second instance working inside a sink / source call, emit calls: regp_req_read8/16, regp_req_write8/16, regp_resp_ack (with/without payload), each of the eleven regp_resp_e*, regp_resp_meta}; every frame put on the wire is compared octet for octet with the reference encoder and then received by a peer's regp_recv, whose reported fields must equal the intended ones. Non-trivial = at least one frame emitted";
         } else {
-            d["rule"] = "plans = {transport, memory word size, block size from sizeof(RPFrame)+1, allocator flavour, allocation-failure script, stream of framed segments whose content is valid / mutated / random / oversize / short / empty, fragmentation script, optional channel error at an octet position, optional truncated last TCP frame}; the documented loop recv; process; free runs until the wire is empty; ledger, ASan, backend capacity probe and outcome rules are checked per frame. Non-trivial = at least one frame served";
+            d["rule"] = "plans = {transport, memory word size, block size from sizeof(RPFrame)+1, allocator flavour (release through regp_free or block_free), optionally an earlier instance that received line noise and a second instance working inside a sink / source call, allocation-failure script, stream of framed segments whose content is valid / mutated / random / oversize / short / empty, fragmentation script, optional channel error at an octet position, optional truncated last TCP frame}; the documented loop recv; process; free runs until the wire is empty; ledger, ASan, backend capacity probe and outcome rules are checked per frame. Non-trivial = at least one frame served";
             as.push("a read whose answer fits the buffer size but not the block once the header is accounted for may be answered with ETXOVERFLOW or a correct ACK; only reads larger than the buffer size must be ETXOVERFLOW; the backend capacity rule is unconditional");
             as.push("on TCP no corruption of the length prefix is injected (no resynchronisation is promised); segments are always correctly delimited");
             as.push("for oversized or unallocatable frames that are not requests only 'no backend call, no acknowledgement' is demanded");
